@@ -8,9 +8,13 @@ def plan(tier, ctx):
     qs = []
     for cfg, defs in (("default", []), ("large_tables", ["GF_LARGE_TABLES"])):
         units = ["erasure_code/ec_base.c"]
-        for h, unw in (("H_INV", 9), ("H_TBL", 9)) + ((("H_MUL", 9),) if not defs else ()):
+        for h, unw in (("H_INV", 9), ("H_TBL", 49)) + ((("H_MUL", 9),) if not defs else ()):
             qs.append(Query("%s/%s" % (h, cfg), R, dict(harness=H, units=units, defines=defs, hdefines=[h],
                                                         unwind=unw, witness=True, timeout=600), core=True, family=h))
+        if cfg == "default":
+            for off in (1, 3, 4, 7):
+                qs.append(Query("H_TBL/%s/off%d" % (cfg, off), R, dict(harness=H, units=units, defines=defs, hdefines=["H_TBL", "TBL_OFF=%d" % off],
+                                                                      unwind=49, witness=False, timeout=600), core=False, family="H_TBL"))
         if defs:  # 64 KiB table: case split on the high nibble of b, all 16 cases
             for bh in range(16):
                 qs.append(Query("H_MUL/%s/bhi%d" % (cfg, bh), R,
